@@ -19,6 +19,7 @@ func init() {
 		Assumptions: []string{"sort.Search(n, f) returns an index in [0, n]; Collection.List is sorted by id (C01 R01.4)"},
 		Run:         runC15,
 		Controls: []Control{
+			{Name: "waste-walk-stops-above-zero", File: "pkg/trait/wastepb/model.go", Old: "\tfor i := start - 1; i >= 0; i-- {\n", New: "\tfor i := start - 1; i > 0; i-- {\n", Expect: "R15.11"},
 			{Name: "id-callback-writes-the-callers-copy", File: "pkg/trait/vendingpb/model.go", Old: "\treturn castConsumable(m.consumables.Add(consumable.Name, consumable, resource.WithGenIDIfAbsent()", New: "\trecord := proto.Clone(consumable).(*traits.Consumable)\n\treturn castConsumable(m.consumables.Add(consumable.Name, record, resource.WithGenIDIfAbsent()", Expect: "R15.10"},
 			{Name: "revert-F44-listing-fetched-with-read-mask", File: "pkg/trait/hailpb/model_server.go", Old: "\tsortedItems := m.model.ListHails()\n", New: "\tsortedItems := m.model.ListHails(resource.WithReadMask(request.ReadMask))\n", Expect: "R15.9"},
 			{Name: "token-alphabets-differ", File: "pkg/trait/vendingpb/pages.go", Old: "\t\treturn base64.StdEncoding.EncodeToString(tokenBytes), nil", New: "\t\treturn base64.URLEncoding.EncodeToString(tokenBytes), nil", Expect: "R15.8"},
@@ -29,7 +30,7 @@ func init() {
 			{Name: "decode-error-internal", File: "pkg/trait/electricpb/pages.go", Old: "\t\tif err := proto.Unmarshal(tokenBytes, pageToken); err != nil {\n\t\t\treturn status.Errorf(codes.InvalidArgument, \"bad page token: %v\", err)", New: "\t\tif err := proto.Unmarshal(tokenBytes, pageToken); err != nil {\n\t\t\treturn status.Errorf(codes.Internal, \"bad page token: %v\", err)", Expect: "R15.2"},
 			{Name: "token-kept-at-end", File: "pkg/trait/electricpb/model_server.go", Old: "\t\tupperBound = len(sortedModes)\n\t\tpageToken = nil", New: "\t\tupperBound = len(sortedModes)", Expect: "R15.5"},
 			{Name: "total-size-of-page", File: "pkg/trait/parentpb/model_server.go", Old: "\t\tTotalSize: int32(len(all)),", New: "\t\tTotalSize: int32(pageSize),", Expect: "R15.5"},
-			{Name: "page-ignores-size", File: "pkg/trait/hailpb/model_server.go", Old: "\tresult.Hails = sortedItems[nextIndex:upperBound]", New: "\tresult.Hails = sortedItems[nextIndex:]", Expect: "R15.6"},
+			{Name: "page-ignores-size", File: "pkg/trait/hailpb/model_server.go", Old: "\tpage := sortedItems[nextIndex:upperBound]", New: "\tpage := sortedItems[nextIndex:]", Expect: "R15.6"},
 			{Name: "revert-F13-negative-size", File: "pkg/trait/hailpb/model_server.go", Old: "\tif request.GetPageSize() < 0 {\n\t\treturn nil, status.Error(codes.InvalidArgument, \"page_size must not be negative\")\n\t}\n", New: "", Expect: "R15.1"},
 			{Name: "revert-F14-token-unbounded", File: "pkg/trait/wastepb/model_server.go", Old: "\t\tif startIndex < 0 || startIndex > m.model.GetWasteRecordCount() {\n\t\t\treturn nil, status.Error(codes.InvalidArgument, \"bad page token\")\n\t\t}\n", New: "", Expect: "R15.3"},
 			{Name: "clamp-negatives-to-default", Silent: true, File: "pkg/trait/hailpb/pages.go", Old: "\tif pageSize == 0 {\n\t\treturn defaultPageSize\n\t}", New: "\tif pageSize <= 0 {\n\t\treturn defaultPageSize\n\t}"},
@@ -42,6 +43,8 @@ func init() {
 }
 
 func runC15(c *an.Ctx) {
+	r1511(c, "R15.11")
+	c.Min("R15.11", 1)
 	hs := pagingHandlers(c)
 	if len(hs) < 6 {
 		c.Unk("R15.1", "paged handlers", 0, fmt.Sprintf("only %d key-token paging handlers found, 6 were confirmed by hand", len(hs)))
@@ -1206,4 +1209,104 @@ func r1510(c *an.Ctx) {
 		})
 	}
 	c.Count("id_callbacks", n)
+}
+
+// r1511: the waste model lists from the newest record down to the oldest, which is index 0: the loop that walks the
+// records downwards still runs for index 0. Stopping above it drops the oldest record from the last page, so paging to
+// the end enumerates one record fewer than total_size says.
+func r1511(c *an.Ctx, rule string) {
+	fn := mustFunc(c, rule, "pkg/trait/wastepb", "Model", "ListWasteRecords")
+	if fn == nil {
+		return
+	}
+	name := "(*pkg/trait/wastepb.Model).ListWasteRecords"
+	n, ok := 0, true
+	var where ssa.Instruction
+	an.Instrs(fn, func(in ssa.Instruction) {
+		ia, isIA := in.(*ssa.IndexAddr)
+		if !isIA {
+			return
+		}
+		// the index variable of the records slice: the loop variable itself, or the loop variable plus a constant
+		// (`records[next-1]` under `next > 0`); the bound is evaluated at the loop variable's value for index 0
+		idx := ia.Index
+		var at int64
+		if b, isB := idx.(*ssa.BinOp); isB && (b.Op == token.ADD || b.Op == token.SUB) {
+			if k, isC := an.ConstInt(b.Y); isC {
+				idx = b.X
+				if b.Op == token.ADD {
+					at = -k
+				} else {
+					at = k
+				}
+			}
+		}
+		for _, e := range an.GuardingEdges(ia) {
+			bo, isBO := e.If.Cond.(*ssa.BinOp)
+			if !isBO {
+				continue
+			}
+			var k int64
+			var op token.Token
+			switch {
+			case bo.X == idx:
+				kk, isC := an.ConstInt(bo.Y)
+				if !isC {
+					continue
+				}
+				k, op = kk, bo.Op
+			case bo.Y == idx:
+				kk, isC := an.ConstInt(bo.X)
+				if !isC {
+					continue
+				}
+				k = kk
+				switch bo.Op {
+				case token.LSS:
+					op = token.GTR
+				case token.LEQ:
+					op = token.GEQ
+				case token.GTR:
+					op = token.LSS
+				case token.GEQ:
+					op = token.LEQ
+				default:
+					op = bo.Op
+				}
+			default:
+				continue
+			}
+			// does the edge admit index 0?
+			var at0 bool
+			switch op {
+			case token.GEQ:
+				at0 = at >= k
+			case token.GTR:
+				at0 = at > k
+			case token.LEQ:
+				at0 = at <= k
+			case token.LSS:
+				at0 = at < k
+			case token.NEQ:
+				at0 = at != k
+			case token.EQL:
+				at0 = at == k
+			default:
+				continue
+			}
+			if !e.Branch {
+				at0 = !at0
+			}
+			n++
+			if !at0 {
+				ok, where = false, e.If
+			}
+		}
+	})
+	pos := fn.Pos()
+	if where != nil {
+		pos = where.Pos()
+	}
+	c.Check(ok && n > 0, rule, name+"|the walk down the records reaches index 0", pos, fmt.Sprintf("%d bound(s) on the index admit 0", n),
+		"the loop over the stored records stops before index 0: the oldest record is never listed, so following next_page_token to the end yields total_size-1 records")
 }
